@@ -330,14 +330,18 @@ _C19_DAEMON = dict(
                    "= ok: no u32 overflow, gap <= 3 600 000 ms), due_time_bounded (no u64 overflow below 2^63), and the chain: "
                    "browse_schedule_starts, browse_schedule_step, browse_schedule_chain (from query number k sent at t, after ANY "
                    "history without browse/stop of the type the schedule is at number k+n sent at t' >= t + 1000 * (delay k + ... "
-                   "+ delay (k+n-1))).",
+                   "+ delay (k+n-1))). The same chain for hostname searches, up to the deadline: resolve_schedule_starts, "
+                   "resolve_schedule_step, resolve_schedule_chain, resolve_schedule_from_call (after ANY history that neither "
+                   "searches nor stops the name the schedule got as far as query number k+n at t' >= t + 1000 * (delay k + ... + "
+                   "delay (k+n-1)) and is either still running there, or over - and then only because the next query would not "
+                   "have come before the deadline or an iteration came at / after the deadline), resolve_schedule_stays_over.",
         level_note="Trusted: Lean kernel; axioms propext/Classical.choice/Quot.sound; hand model tied to the code by differential "
                    "comparison of whole histories; simulation seams bypass poll/recv/send/if_addrs/fastrand/system time; "
                    "histories here have no responders (empty cache) - queries caused by cache refresh, follow-ups, new "
                    "interfaces and verify are covered by other properties' checks.",
-        partial=["the chain theorem over whole histories (browse_schedule_chain) is proved for browses; for hostname searches "
-                 "(where the deadline can cut the schedule) the step contracts resolve_rerun_doubles / C17.resolve_first_rerun / "
-                 "resolve_rerun_open plus one_schedule_client"],
+        partial=["the chain theorems (browse_schedule_chain, resolve_schedule_chain) bound the gaps from below for ANY scheduler; "
+                 "that each query of the schedule goes out AT its due time needs a timely scheduler (C12 wake_never_late on the "
+                 "client model: the due time is a timer) and is not stated as one theorem"],
         assumptions=["event receivers stay alive (a dropped receiver ends the search early: not generated here)",
                      "one `now` per loop iteration"],
 )
@@ -955,7 +959,7 @@ CONFIG["C13"] = dict(
 
 CONFIG["C12"] = dict(
     modules=["Mdns.Props.C12"],
-    model_files="Mdns/Model/Sched.lean, Mdns/Model/Client.lean",
+    model_files="Mdns/Model/Sched.lean, Mdns/Model/Client.lean, Mdns/Model/Responder.lean",
     nontrivial=_sim_nontrivial,
     extra_evidence=_sim_extra,
     rule="(a) responder-free histories as in C19/C13: the model's requested wake-up is compared with the real daemon's at "
@@ -978,14 +982,25 @@ CONFIG["C12"] = dict(
                "input (timersCover_iter), holds after every history from the fresh daemon (timersCover_always), hence "
                "wake_never_late(_run): the requested wake-up is no later than any due work after the last iteration; "
                "expiry_after_last, old_timers_popped; on_time_nothing_expired (an iteration not later than the requested wake-up "
-               "finds no cached entry that ran out before now).",
+               "finds no cached entry that ran out before now). On the RESPONDER model (Responder.iter, whose wake-up is compared with the "
+               "real daemon's at every iteration of every responder history): the invariant RTimersCover - the next_send of EVERY "
+               "probe in every interface registry (however it got there: registration, re-registration, joining record, lost "
+               "tiebreak, conflict rename / update_hostname, wake-up of a waiting service), every queued RegisterResend / "
+               "UnregisterResend (goodbye repeat per interface AND family: goodbye_repeat_armed) and the interface check is a timer, "
+               "and no registry keeps un-armed new_timers - holds for the fresh daemon, is preserved by iter for EVERY input with no "
+               "side condition (rTimersCover_iter), hence responder_wake_never_late after every history; the full statement holds "
+               "of the model (no witness against it). Never spinning, responder model: an iteration without input and without "
+               "due work sends nothing and leaves every timer after now (idle_iteration_sleeps); after ANY iteration from ANY "
+               "state at most one further input-free iteration at the same instant has something to do, then every timer lies "
+               "after now (responder_no_spin, after_iteration_quiet).",
     level_note="Trusted: Lean kernel; allowed axioms only; simulation seams (the gate replaces the blocking poll, so the 1 ms "
                "floor of the real poll time-out is not exercised). The two-scheduler comparison is an oracle on the real "
-               "code, not a theorem; probe steps, announcement repeats, refreshes, expiries and verify deadlines are covered "
-               "by it, not yet by the model.",
-    partial=["probing / announcement timers of the responder side are not in the client model (two-scheduler oracle and the "
-             "responder model's own theorems); a no-spin bound for the client model (refresh marks being caught up on a late "
-             "iteration) is not proved, the scheduler-fragment statements are"],
+               "code, not a theorem; it covers histories that mix client and responder work in one daemon, which no single "
+               "model fragment does (the client and the responder invariants are proved per fragment).",
+    partial=["there is no single daemon model: TimersCover (client fragment) and RTimersCover (responder fragment) are proved "
+             "separately, a daemon that browses and registers at once is covered by the two-scheduler oracle only; a no-spin "
+             "bound for the client model (refresh marks being caught up on a late iteration) is not proved, the "
+             "scheduler-fragment statements are"],
     assumptions=["one `now` per loop iteration", "hash-order dependent tie-breaks may make the two executions diverge; packet content is compared canonically (sorted, without TTLs)"],
 )
 
